@@ -302,7 +302,7 @@ def impl_all(c, data, lay, shndx_get, model):
     out['init'] = run_impl(mk(idx['sym']))
     if 'ok' in out['init']:
         sec = box[idx['sym']]
-        out['num'] = run_impl(sec.num_symbols)
+        out['num'] = run_impl(lambda: sec.num_symbols())
         out['symbols'] = run_impl(lambda: [csym(s) for s in sec.iter_symbols()])
         out['byname'] = []
         for q in qstr:
@@ -315,7 +315,7 @@ def impl_all(c, data, lay, shndx_get, model):
             out[key + '_init'] = run_impl(mk(idx[key]))
             if 'ok' in out[key + '_init']:
                 hs = box[idx[key]]
-                out[key + '_count'] = run_impl(hs.get_number_of_symbols)
+                out[key + '_count'] = run_impl(lambda: hs.get_number_of_symbols())
                 res = []
                 for j, q in enumerate(qstr):
                     mj = (model.get(key) or [None] * len(qstr))[j] if model else None
@@ -335,7 +335,7 @@ def impl_all(c, data, lay, shndx_get, model):
         r0 = run_impl(mk(idx['syminfo']))
         if 'ok' in r0:
             si = box[idx['syminfo']]
-            out['syminfo_num'] = run_impl(si.num_symbols)
+            out['syminfo_num'] = run_impl(lambda: si.num_symbols())
             out['syminfo'] = run_impl(lambda: [csym(s) for s in si.iter_symbols()])
         else:
             out['syminfo'] = r0
@@ -820,7 +820,7 @@ def observe_section(sec, qstr, gets):
         def byname(q):
             x = sec.get_symbol_by_name(q)
             return None if x is None else csym_list(x)
-        num = run_impl(sec.num_symbols)
+        num = run_impl(lambda: sec.num_symbols())
         # disturbance: a walk abandoned after its first symbol BEFORE the first lookup by name (the name map must not be
         # taken from a walk that was never finished); the complete walk is observed after the lookups
         it = sec.iter_symbols()
@@ -836,12 +836,12 @@ def observe_section(sec, qstr, gets):
         return {'kind': kind, 'symboltable': sec.symboltable,
                 'get': [run_impl(lambda n=n: canon(sec.get_section_index(n))) for n in gets]}
     if isinstance(sec, SUNWSyminfoTableSection):
-        return {'kind': kind, 'num': run_impl(sec.num_symbols), 'symbols': run_impl(lambda: csym_list(sec.iter_symbols()))}
+        return {'kind': kind, 'num': run_impl(lambda: sec.num_symbols()), 'symbols': run_impl(lambda: csym_list(sec.iter_symbols()))}
     if isinstance(sec, (ELFHashSection, GNUHashSection)):
         def look(q):
             x = sec.get_symbol(q)
             return None if x is None else csym(x)
-        return {'kind': kind, 'count': run_impl(sec.get_number_of_symbols), 'lookup': [run_impl(lambda q=q: look(q)) for q in qstr]}
+        return {'kind': kind, 'count': run_impl(lambda: sec.get_number_of_symbols()), 'lookup': [run_impl(lambda q=q: look(q)) for q in qstr]}
     return {'kind': kind}
 
 
